@@ -392,6 +392,17 @@ def run_na(chk, spec):
 	if list(o.value._underlying) != isn or not all(type(x) is bool for x in o.value._underlying):
 		chk.fail("isna marks exactly the None positions", "na/isna-wrong", f"Vector({vals!r}).isna() = {list(o.value)!r}")
 		return
+	# the mask is a vector of its own: editing it says nothing about any later isna()
+	if n and not any(isn):
+		m0 = o.value
+		call(m0.__setitem__, 0, True)
+		twin = Vector([x for x in vals])
+		o2 = call(twin.isna)
+		o3 = call(v.isna)
+		for lab, oo in (("another vector of the same length", o2), ("the same vector again", o3)):
+			if oo.ok and list(oo.value._underlying) != isn:
+				chk.fail("isna marks exactly the None positions", "na/isna-wrong/after-an-earlier-mask-was-edited", f"Vector({vals!r}).isna() on {lab} after an earlier isna() result was written to: {list(oo.value)!r}")
+				return
 	d = call(v.dropna)
 	if not d.ok:
 		chk.fail("dropna works", f"na/dropna-raises/{type(d.exc).__name__}", f"Vector({vals!r}).dropna() raised {d!r}")
@@ -529,7 +540,29 @@ def run_arith_meta(chk, spec):
 			return
 
 
-RUNNERS = {"row_none": run_row_none, "arith_meta": run_arith_meta, "arith_none": run_arith_none, "compare_none": run_compare_none, "compare_meta": run_compare_meta, "reduce": run_reduce,
+def run_group_reduce_count(chk, spec):
+	"""count counts what is not None - identity, not equality"""
+	keys, vals = spec["keys"], spec["values"]
+	t = Table([Vector(list(keys), name="k"), Vector(list(vals), name="v")])
+	chk.judged("group-reduce", ("group-count-eqall", len(keys), sum(1 for x in vals if x is None)))
+	for opn in ("aggregate", "window"):
+		o = call(lambda: getattr(t, opn)(over="k", count_over="v"))
+		if not o.ok:
+			chk.fail("per-group aggregates skip None", f"group-reduce/raises/{opn}/{type(o.exc).__name__}", f"{spec!r} raised {o!r}")
+			return
+		kc, cc = [list(c._underlying) for c in o.value.cols()][:2]
+		for gk, got in zip(kc, cc):
+			exp = sum(1 for k, x in zip(keys, vals) if k == gk and x is not None)
+			if got != exp:
+				chk.fail("count counts the values that are not None", f"group-reduce/value/count-identity/{opn}", f"{spec!r}: {opn} group {gk!r}: count {got!r}, expected {exp}")
+				return
+	v = Vector(list(vals))
+	o = call(v.isna)
+	if o.ok and list(o.value._underlying) != [x is None for x in vals]:
+		chk.fail("isna marks exactly the None positions", "na/isna-wrong/eq-all-objects", f"{spec!r}: isna {list(o.value)!r}")
+
+
+RUNNERS = {"group_reduce_count": run_group_reduce_count, "row_none": run_row_none, "arith_meta": run_arith_meta, "arith_none": run_arith_none, "compare_none": run_compare_none, "compare_meta": run_compare_meta, "reduce": run_reduce,
 	"group_reduce": run_group_reduce, "na": run_na}
 RUNNERS["recompute"] = recompute.runner("C06")
 
@@ -637,6 +670,22 @@ def run(chk):
 			chk.case("reduce", {"values": vals, "red": red, "kind": kind, "mask": mask_sig([x is None for x in vals])}, "reduce-falsy")
 		chk.case("na", {"values": vals, "fill": rng.choice(dom), "fillclass": "same" if any(x is not None for x in vals) else "into-all-none",
 			"kind": kind, "mask": mask_sig([x is None for x in vals]), "name": None}, "na-falsy")
+	# fill values that are containers are single values; objects that compare equal to everything are not None
+	for _ in range(40 if chk.quick() else 300):
+		n = rng.choice([2, 3, 4])
+		vals = [rng.choice([1, "a", None, 2.5, None]) for _ in range(n)]
+		if not any(x is None for x in vals):
+			vals[rng.randrange(n)] = None
+		if all(x is None for x in vals):
+			vals[0] = 1
+		vals = ["s", 3] + vals      # (a str next to a number: the vector is object-typed and takes any fill value)
+		fill = rng.choice([(7, 8), [1], frozenset({1, 2}), range(2), {"k": 1}, (), "xy", b"ab", bytearray(b"q")])
+		chk.case("na", {"values": vals, "fill": fill, "fillclass": "same", "kind": "object-container-fill", "mask": mask_sig([x is None for x in vals]), "name": None, "build": "direct"}, "na-container-fill")
+	for _ in range(30 if chk.quick() else 200):
+		n = rng.choice([2, 3, 5])
+		keys = [rng.choice(["a", "b"]) for _ in range(n)]
+		vals = [rng.choice([V.EqAll(), None, 3, V.EqAll()]) for _ in range(n)]
+		chk.case("group_reduce_count", {"keys": keys, "values": vals}, "group-reduce-eqall")
 	# NaN is a value, not a missing value: only None is marked / dropped / filled
 	nan = float("nan")
 	for _ in range(60 if chk.quick() else 400):
